@@ -201,6 +201,15 @@ def insertMany (s : Refs) (src : Nat) : List (Nat × Nat × Bool) → Option Ref
     | some s' => insertMany s' src rest
     | none => none
 
+/-- `insert_references(&[(source, target, type)])`: every entry is inserted, one after the other,
+whether or not earlier entries already existed.  `none` = the self reference panic. -/
+def insertRefs (s : Refs) : List (Nat × Nat × Nat) → Option Refs
+  | [] => some s
+  | (a, b, t) :: rest =>
+    match insertRef s a b t with
+    | some s' => insertRefs s' rest
+    | none => none
+
 /-- `BrowseDirection` -/
 inductive Dir where
   | forward | inverse | both | invalid
